@@ -1,1 +1,2 @@
-
+import CorgiProofs.Lists
+import CorgiProofs.Index
